@@ -504,7 +504,9 @@ pub fn conc(a: &Args) {
         }
         let cap = [1usize, 8, 24, 64, 200, 512][rng.random_range(0..6)];
         let nthreads = rng.random_range(2..=4u64);
-        let per = rng.random_range(5..=40u64);
+        // every third run is flush-heavy (emit, flush, emit, flush ... from every thread): flushes that race with emits
+        let flush_odds: u32 = if run % 3 == 1 { 2 } else { 9 };
+        let per = if flush_odds == 2 { rng.random_range(60..=160u64) } else { rng.random_range(5..=40u64) };
         let buffered = kind.starts_with('b');
         let mcap = if buffered { cap } else { 0 };
         let term = if buffered { "0a" } else { "" };
@@ -559,8 +561,10 @@ pub fn conc(a: &Args) {
             let mut prng = StdRng::seed_from_u64(seed * 7_000_003 + run * 31 + ti);
             joins.push(std::thread::spawn(move || {
                 let me = tid();
+                // really parallel: freshly spawned threads are often placed on one CPU and then take turns
+                crate::queue::pin_to(1 + ti);
                 for i in 0..per {
-                    if buffered && prng.random_range(0..9) == 0 {
+                    if buffered && prng.random_range(0..flush_odds) == 0 {
                         hk(Hk::ECall(me, "flush".into(), String::new()));
                         let r = catch_unwind(AssertUnwindSafe(|| c.flush()));
                         hk(Hk::ERet(me, match r { Ok(Ok(())) => Ok(0), Ok(Err(e)) => Err(format!("{:?}", e.kind())), Err(_) => Err("PANIC".into()) }));
